@@ -144,6 +144,44 @@ def run(tier="quick", seed=0):
                     if not same(res, want) or len(log) != k:
                         fail("batch_results_in_order", {"batch_size": k, "version": version, "server": server_cls.__name__},
                              "results %s; %d invocation(s)" % ("differ" if not same(res, want) else "equal", len(log)))
+                # a batch mixing calls and notifications: one result per call, in order; every job runs exactly once
+                n += 1
+                del log[:]
+                batch = jsonrpclib.MultiCall(proxy)
+                batch.echo("first")
+                batch._notify.echo("silent")
+                batch.echo(second=2)
+                batch._notify.echo(3)
+                batch.echo("last")
+                try:
+                    res = list(batch())
+                    import time as _t
+                    deadline = _t.time() + 3
+                    while len(log) < 5 and _t.time() < deadline:
+                        _t.sleep(0.01)
+                    ran = sorted(repr((a, sorted(k.items()))) for _, a, k in log)
+                    want_ran = sorted(repr((a, sorted(k.items()))) for a, k in ((("first",), {}), (("silent",), {}), ((), {"second": 2}), ((3,), {}), (("last",), {})))
+                    if not same(res, ["first", {"second": 2}, "last"]) or ran != want_ran:
+                        fail("batch_results_in_order", {"batch": "call, notification, call, notification, call", "version": version,
+                                                        "server": server_cls.__name__}, "results %r; executed %d job(s)" % (res, len(log)))
+                except Exception as e:     # noqa
+                    fail("batch_results_in_order", {"batch": "call, notification, call, notification, call", "version": version,
+                                                    "server": server_cls.__name__}, "raised %s: %s" % (type(e).__name__, str(e)[:120]))
+                # a single notification: no result, executed once
+                n += 1
+                del log[:]
+                try:
+                    r0 = proxy._notify.echo("note")
+                    import time as _t
+                    deadline = _t.time() + 3
+                    while len(log) < 1 and _t.time() < deadline:
+                        _t.sleep(0.01)
+                    if r0 is not None or len(log) != 1 or log[0][1] != ("note",):
+                        fail("notification_runs_once_without_result", {"version": version, "server": server_cls.__name__},
+                             "returned %r; executed %d time(s)" % (r0, len(log)))
+                except Exception as e:     # noqa
+                    fail("notification_runs_once_without_result", {"version": version, "server": server_cls.__name__},
+                         "raised %s: %s" % (type(e).__name__, str(e)[:120]))
                 n += 1
                 try:
                     if getattr(proxy, "ns.écho")("ü") != "ü":
